@@ -409,3 +409,91 @@ pub fn full_match(re: &Regex, input: &[char], t: &AtomTables) -> bool {
     let m = AtomMatrix::new(re, input, t);
     match_ends(re, &m, 0) >> input.len() & 1 == 1
 }
+
+// ------------------------------------------------------------------------------------------------
+// Word-wise denotation of bracketed classes (used by C08 on all scalars; cross-checked against the
+// pointwise `bracket_has`).
+// ------------------------------------------------------------------------------------------------
+
+impl CharSet {
+    pub fn valid() -> CharSet {
+        let mut s = CharSet(vec![!0u64; 0x110000 / 64]);
+        // remove the surrogate range D800..DFFF
+        for w in (0xD800 / 64)..(0xE000 / 64) {
+            s.0[w] = 0;
+        }
+        s
+    }
+    pub fn complement(&self) -> CharSet {
+        let v = CharSet::valid();
+        CharSet(self.0.iter().zip(v.0.iter()).map(|(a, m)| !a & m).collect())
+    }
+    pub fn zip(&self, o: &CharSet, f: impl Fn(u64, u64) -> u64) -> CharSet {
+        CharSet(self.0.iter().zip(o.0.iter()).map(|(a, b)| f(*a, *b)).collect())
+    }
+}
+
+fn named_set(at: &NamedAtom, t: &AtomTables) -> CharSet {
+    let s = t.get(&at.key);
+    if at.negated {
+        s.complement()
+    } else {
+        s.clone()
+    }
+}
+
+fn item_set(i: &ast::ClassSetItem, t: &AtomTables) -> CharSet {
+    use ast::ClassSetItem::*;
+    match i {
+        Empty(_) => CharSet::empty(),
+        Literal(l) => {
+            if l.c == '.' && l.kind == ast::LiteralKind::Verbatim {
+                let mut s = CharSet::valid();
+                s.0[0] &= !(1u64 << 10) & !(1u64 << 13);
+                s
+            } else {
+                let mut s = CharSet::empty();
+                s.insert(l.c);
+                s
+            }
+        }
+        Range(r) => {
+            let mut s = CharSet::empty();
+            for u in r.start.c as u32..=r.end.c as u32 {
+                if let Some(c) = char::from_u32(u) {
+                    s.insert(c);
+                }
+            }
+            s
+        }
+        Ascii(a) => named_set(&ascii_atom(a), t),
+        Unicode(u) => named_set(&unicode_atom(u), t),
+        Perl(p) => named_set(&perl_atom(p), t),
+        Bracketed(b) => bracket_set(b, t),
+        Union(u) => u.items.iter().fold(CharSet::empty(), |acc, i| acc.zip(&item_set(i, t), |a, b| a | b)),
+    }
+}
+
+fn set_set(s: &ast::ClassSet, t: &AtomTables) -> CharSet {
+    match s {
+        ast::ClassSet::Item(i) => item_set(i, t),
+        ast::ClassSet::BinaryOp(b) => {
+            let (l, r) = (set_set(&b.lhs, t), set_set(&b.rhs, t));
+            match b.kind {
+                ast::ClassSetBinaryOpKind::Intersection => l.zip(&r, |a, b| a & b),
+                ast::ClassSetBinaryOpKind::Difference => l.zip(&r, |a, b| a & !b),
+                ast::ClassSetBinaryOpKind::SymmetricDifference => l.zip(&r, |a, b| a ^ b),
+            }
+        }
+    }
+}
+
+/// The set a bracketed class denotes (boolean algebra of its items).
+pub fn bracket_set(b: &ast::ClassBracketed, t: &AtomTables) -> CharSet {
+    let s = set_set(&b.kind, t);
+    if b.negated {
+        s.complement()
+    } else {
+        s
+    }
+}
